@@ -324,8 +324,21 @@ fn replay(chunk_path: &str, out_path: &str) -> anyhow::Result<()> {
     // names successfully defined in A (so that B only loads what exists)
     let mut defined_a: Vec<Vec<&'static str>> = vec![Vec::new(); types.len()];
     let mut alias_ok = vec![false; types.len()];
+    // two declaring files of the same base name and identical text in different directories
+    const DEFS_SRC: &str = "RX = record(a=int)\nEX = enum(\"a\", \"b\")\n";
+    let mut defs: Vec<FrozenModule> = Vec::new();
+    for file in ["pkg_a/defs.star", "pkg_b/defs.star"] {
+        defs.push(Module::with_temp_heap(|module| -> anyhow::Result<FrozenModule> {
+            eval_src(&module, &g, file, DEFS_SRC, None).map_err(|e| anyhow::anyhow!("{} failed: {}", file, e))?;
+            module.freeze().map_err(|e| anyhow::anyhow!("freeze {}: {:?}", file, e))
+        })?);
+    }
+    let mut defs_map: HashMap<&str, &FrozenModule> = HashMap::new();
+    defs_map.insert("pkg_a/defs.star", &defs[0]);
+    defs_map.insert("pkg_b/defs.star", &defs[1]);
+    let defs_loader = ReturnFileLoader { modules: &defs_map };
     let frozen_a: FrozenModule = Module::with_temp_heap(|module| -> anyhow::Result<FrozenModule> {
-        eval_src(&module, &g, "a.star", &format!("{}\n{}", prelude_a, vals_src("VALS")), None)
+        eval_src(&module, &g, "a.star", &format!("{}\n{}", prelude_a, vals_src("VALS")), Some(&defs_loader))
             .map_err(|e| anyhow::anyhow!("prelude of module A failed: {}", e))?;
         // set-up, one statement at a time
         for (k, (_, ann, expr)) in types.iter().enumerate() {
